@@ -193,16 +193,20 @@ def oracle_graded(c, obs):
     w = dec(obs["eigs"]); H = dec(obs["H"][0]).T
     ref = np.linalg.eigvals(H[:-1])
     lam = np.linalg.eigvals(S); top = np.abs(lam).max()
-    if len(w) != len(ref) or hausdorff(w, ref) > 1e-8 * top:
-        bad.append(f"arnoldi_eigs values are not eig of the square H of arnoldi() for the same arguments (distance {hausdorff(w, ref):.3g})")
+    cond = np.linalg.cond(np.linalg.eig(S)[1])       # eigenvalues of a graded matrix are only determined to eps * cond(eigenvectors)
+    slack = max(1e-8, 1e-11 * cond)
+    if len(w) != len(ref) or (cond < 1e9 and hausdorff(w, ref) > slack * top):
+        bad.append(f"arnoldi_eigs values are not eig of the square H of arnoldi() for the same arguments (distance {hausdorff(w, ref) / top:.3g} of the largest eigenvalue)")
     sd = np.abs(np.diag(H, -1))
-    cond = np.linalg.cond(np.linalg.eig(S)[1])
-    if H.shape[1] == n and np.all(sd[:n - 1] > 0) and len(w) == n and cond < 1e10:
+    v = dec(c["v"])[0].real
+    aq0 = np.linalg.norm(S @ v) / np.linalg.norm(v)
+    # (only when no remainder came near the tolerance: tol*||A q_0|| is what the caller declared negligible)
+    if H.shape[1] == n and np.all(sd[:n - 1] > 10.0 * c["tol"] * aq0) and len(w) == n:
         rest, err = list(w), 0.0
         for r in lam:
             j = int(np.argmin([abs(e - r) for e in rest])); err = max(err, abs(rest.pop(j) - r))
         # eigenvalues of the dense reference itself are only determined to eps*cond(eigenvectors)
-        if err > max(1e-8, 1e-13 * cond) * top and hausdorff(ref, lam) <= max(1e-8, 1e-13 * cond) * top:
+        if cond < 1e9 and err > slack * top:
             bad.append(f"arnoldi_eigs with max_iters >= n does not return the spectrum of the graded operator (error {err / top:.3g} of the largest eigenvalue)")
     return bad
 
